@@ -974,5 +974,981 @@ theorem ensureRegs_good {c : Dag} {P : Paths} (g : Good c P) (op : Op) :
         · exact hl2 hnone r ((mem_sortRegs _ _).mpr hr)
         · exact hmono2 _ (hl1 rfl r hr)
 
+
+/-! ## splicing a node onto several wires (`_add`, `_insert_at`) -/
+
+def splicePaths (n : NodeId) (es : List Edge) (P : Paths) : Paths :=
+  es.foldl (fun P e => setPath P e.key (insertAfter (P e.key) e.src n)) P
+
+def spliceAll (c : Dag) (n : NodeId) (es : List Edge) : Dag := es.foldl (fun c e => c.splice n e) c
+
+theorem splicePaths_other (n : NodeId) (es : List Edge) (P : Paths) (k : Reg) (hk : k ∉ es.map (·.key)) :
+    splicePaths n es P k = P k := by
+  induction es generalizing P with
+  | nil => rfl
+  | cons e rest ih =>
+    simp only [List.map_cons, List.mem_cons, not_or] at hk
+    unfold splicePaths
+    rw [List.foldl_cons]
+    have := ih (setPath P e.key (insertAfter (P e.key) e.src n)) hk.2
+    unfold splicePaths at this
+    rw [this, setPath_other _ _ hk.1]
+
+theorem splicePaths_mem (n : NodeId) (es : List Edge) (P : Paths) (hkeys : (es.map (·.key)).Nodup)
+    (e : Edge) (he : e ∈ es) : splicePaths n es P e.key = insertAfter (P e.key) e.src n := by
+  induction es generalizing P with
+  | nil => simp at he
+  | cons e0 rest ih =>
+    have hnd : e0.key ∉ rest.map (·.key) ∧ (rest.map (·.key)).Nodup := by
+      rw [List.map_cons] at hkeys; exact List.nodup_cons.mp hkeys
+    unfold splicePaths
+    rw [List.foldl_cons]
+    rcases List.mem_cons.mp he with rfl | he
+    · have := splicePaths_other n rest (setPath P e.key (insertAfter (P e.key) e.src n)) e.key hnd.1
+      unfold splicePaths at this
+      rw [this, setPath_same]
+    · have hne : e.key ≠ e0.key := by
+        intro heq
+        exact hnd.1 (heq ▸ List.mem_map.mpr ⟨e, he, rfl⟩)
+      have := ih (setPath P e0.key (insertAfter (P e0.key) e0.src n)) hnd.2 he
+      unfold splicePaths at this
+      rw [this, setPath_other _ _ hne]
+
+theorem spliceAll_inv {c : Dag} {P : Paths} (h : Inv c P) {n : NodeId} {i : Nat} (hn : n = .op i)
+    (hnodes : n ∈ c.nodeIds) (es : List Edge) (hmem : ∀ e ∈ es, e ∈ c.edges) (hkeys : (es.map (·.key)).Nodup)
+    (hnP : ∀ e ∈ es, n ∉ P e.key) :
+    Inv (c.spliceAll n es) (splicePaths n es P) ∧ c.insertEdges n es = (c.spliceAll n es, none) := by
+  induction es generalizing c P with
+  | nil => exact ⟨h, rfl⟩
+  | cons e rest ih =>
+    have hnd : e.key ∉ rest.map (·.key) ∧ (rest.map (·.key)).Nodup := by
+      rw [List.map_cons] at hkeys; exact List.nodup_cons.mp hkeys
+    have he : e ∈ c.edges := hmem e (by simp)
+    have h1 := splice_inv h he hn hnodes (hnP e (by simp))
+    have H : SpliceHyp c P n e.src e.dst e.key := ⟨h, he, hnodes, hnP e (by simp)⟩
+    have hne : ∀ e' ∈ rest, e'.key ≠ e.key := by
+      intro e' he' heq
+      exact hnd.1 (heq ▸ List.mem_map.mpr ⟨e', he', rfl⟩)
+    have hmem' : ∀ e' ∈ rest, e' ∈ (c.splice n e).edges := by
+      intro e' he'
+      have := (H.mem_iff e').mpr ⟨Or.inl (hmem e' (List.mem_cons_of_mem _ he')), fun heq => hne e' he' (by rw [heq])⟩
+      exact this
+    have hnP' : ∀ e' ∈ rest, n ∉ setPath P e.key (insertAfter (P e.key) e.src n) e'.key := by
+      intro e' he'
+      rw [setPath_other _ _ (hne e' he')]
+      exact hnP e' (List.mem_cons_of_mem _ he')
+    have hnodes' : n ∈ (c.splice n e).nodeIds := by rw [nodeIds_eq_of_nodes (splice_nodes c n e)]; exact hnodes
+    obtain ⟨hi, hins⟩ := ih h1 hnodes' hmem' hnd.2 hnP'
+    refine ⟨hi, ?_⟩
+    show insertEdges c n (e :: rest) = _
+    unfold insertEdges
+    rw [if_pos he, hins]
+    rfl
+
+/-- membership in the wires after splicing -/
+theorem mem_splicePaths {c : Dag} {P : Paths} (h : Inv c P) (n : NodeId) (es : List Edge) (hmem : ∀ e ∈ es, e ∈ c.edges)
+    (hkeys : (es.map (·.key)).Nodup) (k : Reg) (x : NodeId) :
+    x ∈ splicePaths n es P k ↔ x ∈ P k ∨ (x = n ∧ k ∈ es.map (·.key)) := by
+  by_cases hk : k ∈ es.map (·.key)
+  · obtain ⟨e, he, rfl⟩ := List.mem_map.mp hk
+    rw [splicePaths_mem n es P hkeys e he]
+    have hu : e.src ∈ P e.key := ((h.edges_iff e).mp (hmem e he)).mem.1
+    rw [mem_insertAfter hu]
+    simp [hk]
+  · rw [splicePaths_other n es P k hk]; simp [hk]
+
+/-- the edges after splicing, read off the wires: old edges, edges into the new node from the sources of the
+    spliced edges, edges out of it to their targets -/
+theorem E_spliceAll {c c' : Dag} {P : Paths} (h : Inv c P) (n : NodeId) (es : List Edge) (hmem : ∀ e ∈ es, e ∈ c.edges)
+    (hkeys : (es.map (·.key)).Nodup) (hnP : ∀ e ∈ es, n ∉ P e.key) (h' : Inv c' (splicePaths n es P)) (a b : NodeId)
+    (hab : c'.E a b) :
+    InsRel c.E n (fun u => ∃ e ∈ es, e.src = u) (fun v => ∃ e ∈ es, e.dst = v) a b := by
+  obtain ⟨e', he', rfl, rfl⟩ := hab
+  have hc := (h'.edges_iff e').mp he'
+  by_cases hk : e'.key ∈ es.map (·.key)
+  · obtain ⟨e, he, hek⟩ := List.mem_map.mp hk
+    have hcons : Consec (P e.key) e.src e.dst := (h.edges_iff e).mp (hmem e he)
+    rw [← hek, splicePaths_mem n es P hkeys e he, consec_insertAfter (h.nodup _) hcons (hnP e he)] at hc
+    rcases hc with ⟨hc, _⟩ | ⟨h1, h2⟩ | ⟨h1, h2⟩
+    · left
+      exact ⟨⟨e'.src, e'.dst, e.key⟩, (h.edges_iff ⟨e'.src, e'.dst, e.key⟩).mpr hc, rfl, rfl⟩
+    · right; left; exact ⟨h2, e, he, h1.symm⟩
+    · right; right; exact ⟨h1, e, he, h2.symm⟩
+  · rw [splicePaths_other n es P _ hk] at hc
+    left
+    exact ⟨e', (h.edges_iff e').mpr hc, rfl, rfl⟩
+
+theorem spliceAll_acyclic {c c' : Dag} {P : Paths} (hinv : Inv c P) (hac : Acyclic c) (n : NodeId) (es : List Edge)
+    (hmem : ∀ e ∈ es, e ∈ c.edges) (hkeys : (es.map (·.key)).Nodup) (hnP : ∀ k, n ∉ P k)
+    (h' : Inv c' (splicePaths n es P))
+    (hno : ∀ e1 ∈ es, ∀ e2 ∈ es, ¬ ReflTransGen c.E e1.dst e2.src) : Acyclic c' := by
+  have hfresh : ∀ a, ¬ c.E a n ∧ ¬ c.E n a := by
+    intro a
+    constructor
+    · rintro ⟨e, he, _, hd⟩
+      exact hnP e.key (hd ▸ ((hinv.edges_iff e).mp he).mem.2)
+    · rintro ⟨e, he, hs, _⟩
+      exact hnP e.key (hs ▸ ((hinv.edges_iff e).mp he).mem.1)
+  have hins : AcyclicRel (InsRel c.E n (fun u => ∃ e ∈ es, e.src = u) (fun v => ∃ e ∈ es, e.dst = v)) := by
+    apply AcyclicRel.insert_fresh hac hfresh
+    · rintro u ⟨e, he, rfl⟩ heq
+      exact hnP e.key (heq ▸ ((hinv.edges_iff e).mp (hmem e he)).mem.1)
+    · rintro v ⟨e, he, rfl⟩ heq
+      exact hnP e.key (heq ▸ ((hinv.edges_iff e).mp (hmem e he)).mem.2)
+    · rintro u v ⟨e2, he2, rfl⟩ ⟨e1, he1, rfl⟩
+      exact hno e1 he1 e2 he2
+  exact hins.mono (fun a b hab => E_spliceAll hinv n es hmem hkeys (fun e _ => hnP e.key) h' a b hab)
+
+
+/-! ## `_add` -/
+
+theorem Inv.mem_path_cases {c : Dag} {P : Paths} (h : Inv c P) {k : Reg} {x : NodeId} (hx : x ∈ P k) :
+    x = .inp k ∨ x = .out k ∨ ∃ i, x = .op i := by
+  by_cases hl : c.live k
+  · obtain ⟨mid, hP, hmid⟩ := h.shape k hl
+    rw [hP] at hx
+    rcases List.mem_cons.mp hx with hx | hx
+    · exact Or.inl hx
+    · rcases List.mem_append.mp hx with hx | hx
+      · exact Or.inr (Or.inr (hmid x hx))
+      · simp at hx; exact Or.inr (Or.inl hx)
+  · rw [h.dead k hl] at hx; simp at hx
+
+theorem Inv.out_mem {c : Dag} {P : Paths} (h : Inv c P) {k k' : Reg} (hx : NodeId.out k ∈ P k') : k' = k := by
+  rcases h.mem_path_cases hx with e | e | ⟨i, e⟩
+  · cases e
+  · injection e with e; exact e.symm
+  · cases e
+
+theorem Inv.inp_mem {c : Dag} {P : Paths} (h : Inv c P) {k k' : Reg} (hx : NodeId.inp k ∈ P k') : k' = k := by
+  rcases h.mem_path_cases hx with e | e | ⟨i, e⟩
+  · injection e with e; exact e.symm
+  · cases e
+  · cases e
+
+/-- the node before `out k` on the wire of `k` -/
+def predOut (P : Paths) (k : Reg) : NodeId := ((P k).dropLast.getLast?).getD (.inp k)
+
+/-- the edge into `out k` -/
+def lastEdge (P : Paths) (k : Reg) : Edge := ⟨predOut P k, .out k, k⟩
+
+theorem Inv.path_split_last {c : Dag} {P : Paths} (h : Inv c P) {k : Reg} (hl : c.live k) :
+    ∃ pre, P k = pre ++ [predOut P k, .out k] := by
+  obtain ⟨mid, hP, _⟩ := h.shape k hl
+  have hne : NodeId.inp k :: mid ≠ [] := by simp
+  have hdl : (P k).dropLast = .inp k :: mid := by
+    rw [hP, show NodeId.inp k :: (mid ++ [NodeId.out k]) = (NodeId.inp k :: mid) ++ [NodeId.out k] by simp,
+      List.dropLast_concat]
+  refine ⟨(NodeId.inp k :: mid).dropLast, ?_⟩
+  have hp : predOut P k = (NodeId.inp k :: mid).getLast hne := by
+    unfold predOut; rw [hdl, List.getLast?_eq_some_getLast hne]; rfl
+  rw [hp, hP]
+  have := List.dropLast_concat_getLast hne
+  calc NodeId.inp k :: (mid ++ [NodeId.out k]) = (NodeId.inp k :: mid) ++ [NodeId.out k] := by simp
+    _ = ((NodeId.inp k :: mid).dropLast ++ [(NodeId.inp k :: mid).getLast hne]) ++ [NodeId.out k] := by rw [this]
+    _ = _ := by rw [List.append_assoc]; rfl
+
+theorem Inv.lastEdge_mem {c : Dag} {P : Paths} (h : Inv c P) {k : Reg} (hl : c.live k) : lastEdge P k ∈ c.edges := by
+  obtain ⟨pre, hP⟩ := h.path_split_last hl
+  rw [h.edges_iff]
+  show Consec (P k) (predOut P k) (.out k)
+  rw [hP]; exact consec_iff_append.mpr ⟨pre, [], rfl⟩
+
+theorem Inv.inEdges_out {c : Dag} {P : Paths} (h : Inv c P) {k : Reg} (hl : c.live k) :
+    c.inEdges (.out k) = [lastEdge P k] := by
+  unfold inEdges
+  apply filter_eq_singleton h.edges_nodup (h.lastEdge_mem hl)
+  · simp [lastEdge]
+  · intro e he hd
+    have hd : e.dst = .out k := by simpa using hd
+    have hc := (h.edges_iff e).mp he
+    rw [hd] at hc
+    have hk : e.key = k := h.out_mem hc.mem.2
+    have hc2 := (h.edges_iff _).mp (h.lastEdge_mem hl)
+    simp only [lastEdge] at hc2
+    rw [hk] at hc
+    have := consec_pred_unique (h.nodup k) hc hc2
+    obtain ⟨s, d, ky⟩ := e
+    simp only at hd hk this
+    subst hd hk this
+    rfl
+
+theorem addLoop_eq {c : Dag} {P : Paths} (h : Inv c P) {n : NodeId} {i : Nat} (hn : n = .op i)
+    (hnodes : n ∈ c.nodeIds) (ks : List Reg) (hks : ks.Nodup) (hlive : ∀ k ∈ ks, c.live k) (hnP : ∀ k ∈ ks, n ∉ P k) :
+    (ks.map NodeId.out).foldl (fun c o => (c.inEdges o).foldl (fun c e => c.splice n e) c) c =
+      c.spliceAll n (ks.map (lastEdge P)) := by
+  induction ks generalizing c P with
+  | nil => rfl
+  | cons k rest ih =>
+    have hnd := List.nodup_cons.mp hks
+    have hl : c.live k := hlive k (by simp)
+    have he := h.lastEdge_mem hl
+    simp only [List.map_cons, List.foldl_cons, spliceAll]
+    rw [h.inEdges_out hl]
+    simp only [List.foldl_cons, List.foldl_nil]
+    have h1 := splice_inv h he hn hnodes (hnP k (by simp))
+    have hnodes' : n ∈ (c.splice n (lastEdge P k)).nodeIds := by
+      rw [nodeIds_eq_of_nodes (splice_nodes c n _)]; exact hnodes
+    have hlive' : ∀ k' ∈ rest, (c.splice n (lastEdge P k)).live k' := by
+      intro k' hk'; simpa [live] using hlive k' (List.mem_cons_of_mem _ hk')
+    have hne : ∀ k' ∈ rest, k' ≠ k := fun k' hk' e => hnd.1 (e ▸ hk')
+    have hnP' : ∀ k' ∈ rest, n ∉ setPath P (lastEdge P k).key (insertAfter (P (lastEdge P k).key) (lastEdge P k).src n) k' := by
+      intro k' hk'
+      show n ∉ setPath P k (insertAfter (P k) (predOut P k) n) k'
+      rw [setPath_other _ _ (hne k' hk')]
+      exact hnP k' (List.mem_cons_of_mem _ hk')
+    rw [ih h1 hnodes' hnd.2 hlive' hnP']
+    unfold spliceAll
+    congr 1
+    apply List.map_congr_left
+    intro k' hk'
+    show lastEdge (setPath P k (insertAfter (P k) (predOut P k) n)) k' = lastEdge P k'
+    simp only [lastEdge, predOut]
+    rw [setPath_other _ _ (hne k' hk')]
+
+/-- an output node has no out-edges -/
+theorem Inv.out_sink {c : Dag} {P : Paths} (h : Inv c P) (k : Reg) (b : NodeId) : ¬ c.E (.out k) b := by
+  rintro ⟨e, he, hs, _⟩
+  have := h.src_ne_out he
+  have hc := ((h.edges_iff e).mp he).mem.1
+  rw [hs] at hc
+  have hk := h.out_mem hc
+  rw [hk, hs] at this
+  exact this rfl
+
+/-- an input node has no in-edges -/
+theorem Inv.inp_source {c : Dag} {P : Paths} (h : Inv c P) (k : Reg) (a : NodeId) : ¬ c.E a (.inp k) := by
+  rintro ⟨e, he, _, hd⟩
+  have := h.dst_ne_inp he
+  have hc := ((h.edges_iff e).mp he).mem.2
+  rw [hd] at hc
+  have hk := h.inp_mem hc
+  rw [hk, hd] at this
+  exact this rfl
+
+theorem opRegs_nodup {op : Op} (hop : OpWF op) : (opRegs op).Nodup := by
+  unfold opRegs
+  rw [List.nodup_append]
+  refine ⟨hop.qregs_nodup, ?_, ?_⟩
+  · exact nodup_map_of_inj (fun a b e => by injection e) hop.cregs_nodup
+  · intro a ha b hb e; subst e
+    obtain ⟨r, _, rfl⟩ := List.mem_map.mp hb
+    exact hop.qregs_quantum _ ha rfl
+
+theorem add_eq_fold (c : Dag) (op : Op) :
+    c.add_ op = ((opRegs op).map NodeId.out).foldl
+      (fun c' o => (c'.inEdges o).foldl (fun c'' e => c''.splice (.op (c.nodeId + 1)) e) c') (c.newNode op) := by
+  simp [add_, opRegs, List.map_append, List.map_map, Function.comp_def]
+
+@[simp] theorem spliceAll_nodes (c : Dag) (n : NodeId) (es : List Edge) : (c.spliceAll n es).nodes = c.nodes := by
+  induction es generalizing c with
+  | nil => rfl
+  | cons e rest ih => simp only [spliceAll, List.foldl_cons] at ih ⊢; rw [ih]; rfl
+
+@[simp] theorem spliceAll_regs (c : Dag) (n : NodeId) (es : List Edge) : (c.spliceAll n es).regs = c.regs := by
+  induction es generalizing c with
+  | nil => rfl
+  | cons e rest ih => simp only [spliceAll, List.foldl_cons] at ih ⊢; rw [ih]; simp
+
+@[simp] theorem spliceAll_nodeId (c : Dag) (n : NodeId) (es : List Edge) : (c.spliceAll n es).nodeId = c.nodeId := by
+  induction es generalizing c with
+  | nil => rfl
+  | cons e rest ih => simp only [spliceAll, List.foldl_cons] at ih ⊢; rw [ih]; rfl
+
+theorem reflTransGen_of_sink {α : Type} {E : α → α → Prop} {a b : α} (hs : ∀ x, ¬ E a x) (h : ReflTransGen E a b) :
+    a = b := by
+  rcases ReflTransGen.cases_head h with e | ⟨c, hc, _⟩
+  · exact e
+  · exact absurd hc (hs c)
+
+/-- the Mem clause after putting a brand-new node `n` (operation `op`) on the wires `keys` -/
+theorem mem_after_splice {c : Dag} {P : Paths} (g : Good c P) {op : Op} (hop : OpWF op) {c' : Dag} {P' : Paths}
+    (hnodes : c'.nodes = c.nodes ++ [(.op (c.nodeId + 1), op)]) (keys : List Reg)
+    (hP' : ∀ k x, x ∈ P' k ↔ x ∈ P k ∨ (x = .op (c.nodeId + 1) ∧ k ∈ keys))
+    (hq : ∀ k, k.ty ≠ .c → (k ∈ keys ↔ k ∈ op.qregs)) (hc : ∀ r, (⟨.c, r⟩ : Reg) ∈ keys → r ∈ op.cregs) :
+    Mem c' P' := by
+  have hfresh := g.inv.op_fresh
+  have hnP : ∀ k, NodeId.op (c.nodeId + 1) ∉ P k := fun k hm => hfresh (g.inv.mem_nodes k _ hm)
+  have hcases : ∀ i o, (NodeId.op i, o) ∈ c'.nodes →
+      ((NodeId.op i, o) ∈ c.nodes ∧ i ≠ c.nodeId + 1) ∨ (i = c.nodeId + 1 ∧ o = op) := by
+    intro i o hm
+    rw [hnodes] at hm
+    rcases List.mem_append.mp hm with hm | hm
+    · left
+      refine ⟨hm, ?_⟩
+      intro e; subst e
+      exact hfresh (mem_nodeIds.mpr ⟨o, hm⟩)
+    · simp at hm; exact Or.inr hm
+  constructor
+  · intro i o hm k hk
+    rcases hcases i o hm with ⟨hm', hne⟩ | ⟨rfl, rfl⟩
+    · rw [hP', ← g.mem.mem_q i o hm' k hk]
+      constructor
+      · rintro (h | ⟨h, _⟩)
+        · exact h
+        · injection h with h; exact absurd h hne
+      · exact Or.inl
+    · rw [hP', ← hq k hk]
+      constructor
+      · rintro (h | ⟨_, h⟩)
+        · exact absurd h (hnP k)
+        · exact h
+      · intro h; exact Or.inr ⟨rfl, h⟩
+  · intro i o hm r hr
+    rcases hcases i o hm with ⟨hm', hne⟩ | ⟨rfl, rfl⟩
+    · rw [hP'] at hr
+      rcases hr with hr | ⟨h, _⟩
+      · exact g.mem.mem_c i o hm' r hr
+      · injection h with h; exact absurd h hne
+    · rw [hP'] at hr
+      rcases hr with hr | ⟨_, hr⟩
+      · exact absurd hr (hnP _)
+      · exact hc r hr
+
+/-- `_add` on a circuit that already has all registers of the operation -/
+theorem add_good' {c : Dag} {P : Paths} (g : Good c P) {op : Op} (hop : OpWF op) (hlive : ∀ r ∈ opRegs op, c.live r) :
+    ∃ P', Good (c.add_ op) P' ∧ (c.add_ op).regs = c.regs ∧ (c.add_ op).nodeId = c.nodeId + 1 ∧
+      (c.add_ op).nodes = c.nodes ++ [(.op (c.nodeId + 1), op)] ∧
+      (∀ k x, x ∈ P' k ↔ x ∈ P k ∨ (x = .op (c.nodeId + 1) ∧ k ∈ opRegs op)) := by
+  let n := NodeId.op (c.nodeId + 1)
+  have hfresh := g.inv.op_fresh
+  have hnP : ∀ k, n ∉ P k := fun k hm => hfresh (g.inv.mem_nodes k _ hm)
+  have h0 : Inv (c.newNode op) P := newNode_inv g.inv hop
+  have hn0 : n ∈ (c.newNode op).nodeIds := by
+    simp [nodeIds, newNode_nodes g.inv op, n]
+  have hlive0 : ∀ k ∈ opRegs op, (c.newNode op).live k := by
+    intro k hk; simpa [live] using hlive k hk
+  have heq : c.add_ op = (c.newNode op).spliceAll n ((opRegs op).map (lastEdge P)) := by
+    rw [add_eq_fold]
+    exact addLoop_eq h0 rfl hn0 (opRegs op) (opRegs_nodup hop) hlive0 (fun k _ => hnP k)
+  have hkeys : ((opRegs op).map (lastEdge P)).map (·.key) = opRegs op := by
+    rw [List.map_map]; simp [lastEdge, Function.comp_def]
+  have hmem : ∀ e ∈ (opRegs op).map (lastEdge P), e ∈ (c.newNode op).edges := by
+    intro e he
+    obtain ⟨k, hk, rfl⟩ := List.mem_map.mp he
+    exact h0.lastEdge_mem (hlive0 k hk)
+  have hknd : (((opRegs op).map (lastEdge P)).map (·.key)).Nodup := by rw [hkeys]; exact opRegs_nodup hop
+  obtain ⟨hinv, _⟩ := spliceAll_inv h0 (i := c.nodeId + 1) rfl hn0 _ hmem hknd (fun e _ => hnP e.key)
+  have hnodes : (c.add_ op).nodes = c.nodes ++ [(.op (c.nodeId + 1), op)] := by
+    rw [heq, spliceAll_nodes, newNode_nodes g.inv op]
+  have hP' : ∀ k x, x ∈ splicePaths n ((opRegs op).map (lastEdge P)) P k ↔ x ∈ P k ∨ (x = n ∧ k ∈ opRegs op) := by
+    intro k x
+    rw [mem_splicePaths h0 n _ hmem hknd k x, hkeys]
+  refine ⟨splicePaths n ((opRegs op).map (lastEdge P)) P, ⟨by rw [heq]; exact hinv, ?_, ?_⟩, ?_, ?_, hnodes, hP'⟩
+  · -- Mem
+    apply mem_after_splice g hop hnodes (opRegs op) hP'
+    · intro k hk
+      unfold opRegs
+      rw [List.mem_append]
+      constructor
+      · rintro (h | h)
+        · exact h
+        · obtain ⟨r, _, rfl⟩ := List.mem_map.mp h
+          exact absurd rfl hk
+      · exact Or.inl
+    · intro r hr
+      unfold opRegs at hr
+      rcases List.mem_append.mp hr with h | h
+      · exact absurd rfl (hop.qregs_quantum _ h)
+      · obtain ⟨r', hr', e⟩ := List.mem_map.mp h
+        injection e with _ e; subst e; exact hr'
+  · -- acyclic
+    rw [heq]
+    have hac0 : Acyclic (c.newNode op) := g.acyc
+    apply spliceAll_acyclic h0 hac0 n _ hmem hknd hnP hinv
+    intro e1 he1 e2 he2 hreach
+    obtain ⟨k1, _, rfl⟩ := List.mem_map.mp he1
+    have := reflTransGen_of_sink (h0.out_sink k1) hreach
+    have hsink := h0.out_sink k1 e2.dst
+    apply hsink
+    exact ⟨e2, hmem e2 he2, this.symm, rfl⟩
+  · rw [heq]; simp
+  · rw [heq]; simp
+
+
+/-- **`add` keeps DagInv** — also when it raises (`ValueError` of the register prologue: only registers were added) -/
+theorem add_good {c : Dag} {P : Paths} (g : Good c P) {op : Op} (hop : OpWF op) : ∃ P', Good (c.add op).1 P' := by
+  obtain ⟨P1, g1, hl1, _, _⟩ := ensureRegs_good g op
+  unfold add
+  cases hres : c.ensureRegs op with
+  | mk c1 err =>
+    rw [hres] at g1 hl1
+    simp only at g1 hl1
+    cases err with
+    | some e => exact ⟨P1, g1⟩
+    | none =>
+      obtain ⟨P2, g2, _⟩ := add_good' g1 hop (hl1 rfl)
+      exact ⟨P2, g2⟩
+
+/-- well-formed edge argument of `insert_at` (evaluated after the register prologue, which only adds isolated
+    `in → out` wires): one existing edge per quantum register of the operation, keyed by that register, and no path
+    from the head of one to the tail of another (`find_incompatible_edges`, see `compatible_no_path`) -/
+structure InsertOK (c : Dag) (op : Op) (es : List Edge) : Prop where
+  mem : ∀ e ∈ es, e ∈ c.edges
+  keys : es.map (·.key) = op.qregs
+  compat : ∀ e1 ∈ es, ∀ e2 ∈ es, e1 ≠ e2 → ¬ ReflTransGen c.E e1.dst e2.src
+
+theorem insertAt_good' {c : Dag} {P : Paths} (g : Good c P) {op : Op} (hop : OpWF op) {es : List Edge}
+    (hok : InsertOK c op es) :
+    (c.insertAt_ op es).2 = none ∧ ∃ P', Good (c.insertAt_ op es).1 P' ∧ (c.insertAt_ op es).1.regs = c.regs ∧
+      (c.insertAt_ op es).1.nodeId = c.nodeId + 1 ∧
+      (c.insertAt_ op es).1.nodes = c.nodes ++ [(.op (c.nodeId + 1), op)] ∧
+      (∀ k x, x ∈ P' k ↔ x ∈ P k ∨ (x = .op (c.nodeId + 1) ∧ k ∈ op.qregs)) := by
+  let n := NodeId.op (c.nodeId + 1)
+  have hfresh := g.inv.op_fresh
+  have hnP : ∀ k, n ∉ P k := fun k hm => hfresh (g.inv.mem_nodes k _ hm)
+  have h0 : Inv (c.newNode op) P := newNode_inv g.inv hop
+  have hn0 : n ∈ (c.newNode op).nodeIds := by simp [nodeIds, newNode_nodes g.inv op, n]
+  have hmem : ∀ e ∈ es, e ∈ (c.newNode op).edges := hok.mem
+  have hknd : (es.map (·.key)).Nodup := by rw [hok.keys]; exact hop.qregs_nodup
+  obtain ⟨hinv, hins⟩ := spliceAll_inv h0 (i := c.nodeId + 1) rfl hn0 es hmem hknd (fun e _ => hnP e.key)
+  have heq : c.insertAt_ op es = ((c.newNode op).spliceAll n es, none) := hins
+  have hnodes : (c.insertAt_ op es).1.nodes = c.nodes ++ [(.op (c.nodeId + 1), op)] := by
+    rw [heq]; simp only [spliceAll_nodes]; exact newNode_nodes g.inv op
+  have hP' : ∀ k x, x ∈ splicePaths n es P k ↔ x ∈ P k ∨ (x = n ∧ k ∈ op.qregs) := by
+    intro k x
+    rw [mem_splicePaths h0 n es hmem hknd k x, hok.keys]
+  refine ⟨by rw [heq], splicePaths n es P, ⟨by rw [heq]; exact hinv, ?_, ?_⟩, ?_, ?_, hnodes, hP'⟩
+  · apply mem_after_splice g hop hnodes op.qregs hP'
+    · intro k _; exact Iff.rfl
+    · intro r hr; exact absurd rfl (hop.qregs_quantum _ hr)
+  · rw [heq]
+    have hac0 : Acyclic (c.newNode op) := g.acyc
+    apply spliceAll_acyclic h0 hac0 n es hmem hknd hnP hinv
+    intro e1 he1 e2 he2
+    by_cases he : e1 = e2
+    · subst he
+      exact hac0.no_back ⟨e1, hmem e1 he1, rfl, rfl⟩
+    · exact hok.compat e1 he1 e2 he2 he
+  · rw [heq]; simp
+  · rw [heq]; simp
+
+/-- **`insert_at` keeps DagInv**: on well-formed edges (a compatible pair for a two-qubit operation) it succeeds and
+    the result is consistent — in particular acyclic; if the register prologue raises, only registers were added -/
+theorem insertAt_good {c : Dag} {P : Paths} (g : Good c P) {op : Op} (hop : OpWF op) {es : List Edge}
+    (hok : InsertOK (c.ensureRegs op).1 op es) :
+    (∃ P', Good (c.insertAt op es).1 P') ∧ ((c.ensureRegs op).2 = none → (c.insertAt op es).2 = none) := by
+  obtain ⟨P1, g1, hl1, _, _⟩ := ensureRegs_good g op
+  unfold insertAt
+  cases hres : c.ensureRegs op with
+  | mk c1 err =>
+    rw [hres] at g1 hl1 hok
+    simp only at g1 hl1 hok
+    cases err with
+    | some e => exact ⟨⟨P1, g1⟩, by simp⟩
+    | none =>
+      have hlen : es.length = op.qregs.length := by rw [← hok.keys, List.length_map]
+      simp only [hlen, ne_eq, not_true_eq_false, if_false]
+      obtain ⟨hnone, P2, g2, _⟩ := insertAt_good' g1 hop hok
+      exact ⟨⟨P2, g2⟩, fun _ => hnone⟩
+
+
+/-! ## `_remove_node`: the edge bookkeeping of the double loop -/
+
+/-- the graph's edge list is duplicate-free and `edge_dict` lists exactly the graph's edges, by register type -/
+structure EdgeOK (c : Dag) : Prop where
+  nodup : c.edges.Nodup
+  dict : ∀ t e, (dictGet c.edgeDict t).count e = if e ∈ c.edges ∧ e.key.ty = t then 1 else 0
+
+theorem Inv.edgeOK {c : Dag} {P : Paths} (h : Inv c P) : EdgeOK c := ⟨h.edges_nodup, h.edgeDict_ok⟩
+
+theorem ite_congr_prop {p q : Prop} [Decidable p] [Decidable q] (h : p ↔ q) (a b : Nat) :
+    (if p then a else b) = (if q then a else b) := by
+  by_cases hp : p
+  · rw [if_pos hp, if_pos (h.mp hp)]
+  · rw [if_neg hp, if_neg (fun hq => hp (h.mpr hq))]
+
+theorem EdgeOK.addEdge {c : Dag} (h : EdgeOK c) {u v : NodeId} {k : Reg} (hnew : (⟨u, v, k⟩ : Edge) ∉ c.edges) :
+    EdgeOK (c.addEdge u v k) := by
+  have hedges : (c.addEdge u v k).edges = c.edges ++ [⟨u, v, k⟩] := by simp [Dag.addEdge, hnew]
+  have hdict : (c.addEdge u v k).edgeDict = dictAppend c.edgeDict k.ty ⟨u, v, k⟩ := rfl
+  constructor
+  · rw [hedges, List.nodup_append]
+    refine ⟨h.nodup, by simp, ?_⟩
+    intro a ha b hb e; subst e; simp at hb; subst hb; exact hnew ha
+  · intro t e
+    rw [hdict, count_dictGet_dictAppend, h.dict, hedges]
+    by_cases he : e = ⟨u, v, k⟩
+    · subst he
+      by_cases ht : t = k.ty
+      · subst ht; simp [hnew]
+      · have : ¬ k.ty = t := fun e => ht e.symm
+        simp [hnew, ht, this]
+    · have : (e ∈ c.edges ++ [(⟨u, v, k⟩ : Edge)] ∧ e.key.ty = t) ↔ (e ∈ c.edges ∧ e.key.ty = t) := by
+        simp [he]
+      rw [ite_congr_prop this]; simp [he]
+
+theorem EdgeOK.removeEdge {c : Dag} (h : EdgeOK c) (e0 : Edge) : EdgeOK (c.removeEdge e0) := by
+  have hedges : (c.removeEdge e0).edges = c.edges.erase e0 := rfl
+  have hdict : (c.removeEdge e0).edgeDict = dictRemove c.edgeDict e0.key.ty e0 := rfl
+  constructor
+  · rw [hedges]; exact h.nodup.erase _
+  · intro t e
+    rw [hdict, dictGet_dictRemove, hedges]
+    by_cases ht : t = e0.key.ty
+    · subst ht
+      rw [if_pos rfl, List.count_erase, h.dict]
+      by_cases he : e = e0
+      · subst he
+        have : ¬ (e ∈ c.edges.erase e ∧ e.key.ty = e.key.ty) := by
+          rw [h.nodup.mem_erase_iff]; intro hh; exact hh.1.1 rfl
+        rw [if_neg this]
+        by_cases hm : e ∈ c.edges <;> simp [hm]
+      · have hne : ¬ (e0 == e) = true := by simpa using fun e' => he e'.symm
+        rw [if_neg hne, Nat.sub_zero]
+        apply ite_congr_prop
+        rw [h.nodup.mem_erase_iff]; simp [he]
+    · rw [if_neg ht, h.dict]
+      apply ite_congr_prop
+      rw [h.nodup.mem_erase_iff]
+      constructor
+      · rintro ⟨h1, h2⟩
+        refine ⟨⟨?_, h1⟩, h2⟩
+        intro e'; subst e'; exact ht h2.symm
+      · rintro ⟨⟨_, h1⟩, h2⟩; exact ⟨h1, h2⟩
+
+theorem mem_removeEdge {c : Dag} (h : EdgeOK c) (e0 e : Edge) : e ∈ (c.removeEdge e0).edges ↔ e ∈ c.edges ∧ e ≠ e0 := by
+  show e ∈ c.edges.erase e0 ↔ _
+  rw [h.nodup.mem_erase_iff]; tauto
+
+/-- the new edge that re-joins a wire across the removed node -/
+def joinEdge (ein eout : Edge) : Edge := ⟨ein.src, eout.dst, eout.key⟩
+
+def innerJoin (c : Dag) (ein : Edge) (outs : List Edge) : Dag :=
+  outs.foldl (fun c eout => if ein.key = eout.key then c.addEdge ein.src eout.dst eout.key else c) c
+
+theorem innerJoin_cons (c : Dag) (ein eout : Edge) (rest : List Edge) :
+    innerJoin c ein (eout :: rest) =
+      innerJoin (if ein.key = eout.key then c.addEdge ein.src eout.dst eout.key else c) ein rest := rfl
+
+theorem innerJoin_spec (ein : Edge) (outs : List Edge) (hkeys : (outs.map (·.key)).Nodup) (c : Dag) (h : EdgeOK c)
+    (hnew : ∀ eout ∈ outs, ein.key = eout.key → joinEdge ein eout ∉ c.edges) :
+    EdgeOK (innerJoin c ein outs) ∧
+    (∀ e, e ∈ (innerJoin c ein outs).edges ↔ e ∈ c.edges ∨ ∃ eout ∈ outs, ein.key = eout.key ∧ e = joinEdge ein eout) ∧
+    (innerJoin c ein outs).nodes = c.nodes ∧ (innerJoin c ein outs).nodeDict = c.nodeDict ∧
+    (innerJoin c ein outs).nodeId = c.nodeId ∧ (innerJoin c ein outs).regs = c.regs := by
+  induction outs generalizing c with
+  | nil => exact ⟨h, by simp [innerJoin], rfl, rfl, rfl, rfl⟩
+  | cons eout rest ih =>
+    have hnd : eout.key ∉ rest.map (·.key) ∧ (rest.map (·.key)).Nodup := by
+      rw [List.map_cons] at hkeys; exact List.nodup_cons.mp hkeys
+    rw [innerJoin_cons]
+    by_cases hk : ein.key = eout.key
+    · rw [if_pos hk]
+      have hn := hnew eout (by simp) hk
+      have h1 := h.addEdge (u := ein.src) (v := eout.dst) (k := eout.key) hn
+      have hnomatch : ∀ e' ∈ rest, ein.key ≠ e'.key := by
+        intro e' he' heq
+        exact hnd.1 (List.mem_map.mpr ⟨e', he', by rw [← heq, hk]⟩)
+      obtain ⟨a1, a2, a3, a4, a5, a6⟩ := ih hnd.2 (c.addEdge ein.src eout.dst eout.key) h1
+        (fun e' he' heq => absurd heq (hnomatch e' he'))
+      refine ⟨a1, ?_, a3, a4, a5, by rw [a6]; simp⟩
+      intro e
+      rw [a2 e, mem_addEdge]
+      constructor
+      · rintro ((h' | h') | ⟨e', he', heq, _⟩)
+        · exact Or.inl h'
+        · exact Or.inr ⟨eout, by simp, hk, h'⟩
+        · exact absurd heq (hnomatch e' he')
+      · rintro (h' | ⟨e', he', heq, hje⟩)
+        · exact Or.inl (Or.inl h')
+        · rcases List.mem_cons.mp he' with rfl | he'
+          · exact Or.inl (Or.inr hje)
+          · exact absurd heq (hnomatch e' he')
+    · rw [if_neg hk]
+      obtain ⟨a1, a2, a3, a4, a5, a6⟩ := ih hnd.2 c h (fun e' he' heq => hnew e' (List.mem_cons_of_mem _ he') heq)
+      refine ⟨a1, ?_, a3, a4, a5, a6⟩
+      intro e
+      rw [a2 e]
+      constructor
+      · rintro (h' | ⟨e', he', heq, hje⟩)
+        · exact Or.inl h'
+        · exact Or.inr ⟨e', List.mem_cons_of_mem _ he', heq, hje⟩
+      · rintro (h' | ⟨e', he', heq, hje⟩)
+        · exact Or.inl h'
+        · rcases List.mem_cons.mp he' with rfl | he'
+          · exact absurd heq hk
+          · exact Or.inr ⟨e', he', heq, hje⟩
+
+def outerJoin (c : Dag) (ins outs : List Edge) : Dag :=
+  ins.foldl (fun c ein => (innerJoin c ein outs).removeEdge ein) c
+
+theorem outerJoin_cons (c : Dag) (ein : Edge) (rest outs : List Edge) :
+    outerJoin c (ein :: rest) outs = outerJoin ((innerJoin c ein outs).removeEdge ein) rest outs := rfl
+
+theorem outerJoin_spec (outs : List Edge) (hkeys : (outs.map (·.key)).Nodup) (ins : List Edge)
+    (hins : (ins.map (·.key)).Nodup) (c : Dag) (h : EdgeOK c)
+    (hnew : ∀ ein ∈ ins, ∀ eout ∈ outs, ein.key = eout.key → joinEdge ein eout ∉ c.edges)
+    (hdist : ∀ ein ∈ ins, ∀ eout ∈ outs, ∀ ein' ∈ ins, joinEdge ein eout ≠ ein') :
+    EdgeOK (outerJoin c ins outs) ∧
+    (∀ e, e ∈ (outerJoin c ins outs).edges ↔ (e ∈ c.edges ∧ e ∉ ins) ∨
+        ∃ ein ∈ ins, ∃ eout ∈ outs, ein.key = eout.key ∧ e = joinEdge ein eout) ∧
+    (outerJoin c ins outs).nodes = c.nodes ∧ (outerJoin c ins outs).nodeDict = c.nodeDict ∧
+    (outerJoin c ins outs).nodeId = c.nodeId ∧ (outerJoin c ins outs).regs = c.regs := by
+  induction ins generalizing c with
+  | nil => exact ⟨h, by simp [outerJoin], rfl, rfl, rfl, rfl⟩
+  | cons ein rest ih =>
+    have hnd : ein.key ∉ rest.map (·.key) ∧ (rest.map (·.key)).Nodup := by
+      rw [List.map_cons] at hins; exact List.nodup_cons.mp hins
+    rw [outerJoin_cons]
+    obtain ⟨b1, b2, b3, b4, b5, b6⟩ := innerJoin_spec ein outs hkeys c h (fun eout he hk => hnew ein (by simp) eout he hk)
+    have h1 : EdgeOK ((innerJoin c ein outs).removeEdge ein) := b1.removeEdge ein
+    have hmem1 : ∀ e, e ∈ ((innerJoin c ein outs).removeEdge ein).edges ↔
+        (e ∈ c.edges ∨ ∃ eout ∈ outs, ein.key = eout.key ∧ e = joinEdge ein eout) ∧ e ≠ ein := by
+      intro e; rw [mem_removeEdge b1, b2]
+    -- new edges for the remaining in-edges are still absent
+    have hnew' : ∀ ein' ∈ rest, ∀ eout ∈ outs, ein'.key = eout.key →
+        joinEdge ein' eout ∉ ((innerJoin c ein outs).removeEdge ein).edges := by
+      intro ein' he' eout heo hk hm
+      rw [hmem1] at hm
+      rcases hm.1 with hm1 | ⟨eout2, heo2, hk2, hje⟩
+      · exact hnew ein' (List.mem_cons_of_mem _ he') eout heo hk hm1
+      · -- joinEdge ein' eout = joinEdge ein eout2 forces equal keys
+        have : eout.key = eout2.key := by
+          have := congrArg Edge.key hje; simpa [joinEdge] using this
+        apply hnd.1
+        apply List.mem_map.mpr
+        exact ⟨ein', he', by rw [hk, this, ← hk2]⟩
+    obtain ⟨a1, a2, a3, a4, a5, a6⟩ := ih hnd.2 ((innerJoin c ein outs).removeEdge ein) h1 hnew'
+      (fun e1 he1 eo heo e2 he2 => hdist e1 (List.mem_cons_of_mem _ he1) eo heo e2 (List.mem_cons_of_mem _ he2))
+    refine ⟨a1, ?_, by rw [a3]; exact b3, by rw [a4]; exact b4, by rw [a5]; exact b5, by rw [a6]; simpa using b6⟩
+    intro e
+    rw [a2 e, hmem1]
+    constructor
+    · rintro (⟨⟨h' | ⟨eout, heo, hk, hje⟩, hne⟩, hnr⟩ | ⟨ein', he', eout, heo, hk, hje⟩)
+      · left; exact ⟨h', by simp [hne, hnr]⟩
+      · right; exact ⟨ein, by simp, eout, heo, hk, hje⟩
+      · right; exact ⟨ein', List.mem_cons_of_mem _ he', eout, heo, hk, hje⟩
+    · rintro (⟨h', hni⟩ | ⟨ein', he', eout, heo, hk, hje⟩)
+      · simp only [List.mem_cons, not_or] at hni
+        left; exact ⟨⟨Or.inl h', hni.1⟩, hni.2⟩
+      · rcases List.mem_cons.mp he' with rfl | he'
+        · left
+          refine ⟨⟨Or.inr ⟨eout, heo, hk, hje⟩, ?_⟩, ?_⟩
+          · rw [hje]; exact hdist ein' (by simp) eout heo ein' (by simp)
+          · rw [hje]; intro hm; exact hdist ein' (by simp) eout heo _ (List.mem_cons_of_mem _ hm) rfl
+        · right; exact ⟨ein', he', eout, heo, hk, hje⟩
+
+theorem removeAll_spec (outs : List Edge) (c : Dag) (h : EdgeOK c) :
+    EdgeOK (outs.foldl (fun c e => c.removeEdge e) c) ∧
+    (∀ e, e ∈ (outs.foldl (fun c e => c.removeEdge e) c).edges ↔ e ∈ c.edges ∧ e ∉ outs) ∧
+    (outs.foldl (fun c e => c.removeEdge e) c).nodes = c.nodes ∧
+    (outs.foldl (fun c e => c.removeEdge e) c).nodeDict = c.nodeDict ∧
+    (outs.foldl (fun c e => c.removeEdge e) c).nodeId = c.nodeId ∧
+    (outs.foldl (fun c e => c.removeEdge e) c).regs = c.regs := by
+  induction outs generalizing c with
+  | nil => exact ⟨h, by simp, rfl, rfl, rfl, rfl⟩
+  | cons e0 rest ih =>
+    rw [List.foldl_cons]
+    obtain ⟨a1, a2, a3, a4, a5, a6⟩ := ih (c.removeEdge e0) (h.removeEdge e0)
+    refine ⟨a1, ?_, a3, a4, a5, by rw [a6]; simp⟩
+    intro e
+    rw [a2, mem_removeEdge h]
+    simp only [List.mem_cons, not_or]
+    tauto
+
+theorem rejoin_eq (c : Dag) (ins outs : List Edge) :
+    c.rejoin ins outs = outs.foldl (fun c e => c.removeEdge e) (outerJoin c ins outs) := rfl
+
+
+/-! ## `remove_op` -/
+
+/-- an operation node on a wire has a predecessor and a successor there -/
+theorem Inv.op_neighbours {c : Dag} {P : Paths} (h : Inv c P) {k : Reg} {i : Nat} (hm : NodeId.op i ∈ P k) :
+    ∃ a b, Consec (P k) a (.op i) ∧ Consec (P k) (.op i) b := by
+  have hl : c.live k := by
+    by_cases hl : c.live k
+    · exact hl
+    · rw [h.dead k hl] at hm; simp at hm
+  obtain ⟨mid, hP, _⟩ := h.shape k hl
+  rw [hP] at hm ⊢
+  have hm' : NodeId.op i ∈ mid := by
+    rcases List.mem_cons.mp hm with e | hm
+    · cases e
+    · rcases List.mem_append.mp hm with hm | hm
+      · exact hm
+      · simp at hm
+  obtain ⟨a, ha⟩ := exists_pred_of_mem (a := NodeId.inp k) (List.mem_append_left [NodeId.out k] hm')
+  have : NodeId.inp k :: (mid ++ [NodeId.out k]) = (NodeId.inp k :: mid) ++ NodeId.out k :: [] := by simp
+  obtain ⟨b, hb⟩ := exists_succ_of_mem_append (l1 := NodeId.inp k :: mid) (b := NodeId.out k) (l2 := [])
+    (List.mem_cons_of_mem _ hm')
+  exact ⟨a, b, ha, by rw [this]; exact hb⟩
+
+/-- the state `remove_op` returns for an existing node -/
+def removed (c : Dag) (n : NodeId) (op : Op) : Dag :=
+  let c1 := c.rejoin (c.inEdges n) (c.outEdges n)
+  { c1 with nodeDict := op.indexKeys.foldl (fun d k => dictRemove d k n) c1.nodeDict,
+            nodes := c1.nodes.filter (fun p => p.1 ≠ n),
+            edges := c1.edges.filter (fun e => e.src ≠ n ∧ e.dst ≠ n) }
+
+theorem removeOp_eq {c : Dag} {n : NodeId} {op : Op} (h : c.opOf? n = some op) : c.removeOp n = (c.removed n op, none) := by
+  unfold removeOp; rw [h]; rfl
+
+structure RemoveFacts (c : Dag) (P : Paths) (n : NodeId) : Prop where
+  rejoin_ok : EdgeOK (c.rejoin (c.inEdges n) (c.outEdges n))
+  mem : ∀ e, e ∈ (c.rejoin (c.inEdges n) (c.outEdges n)).edges ↔
+    (e ∈ c.edges ∧ e.dst ≠ n ∧ e.src ≠ n) ∨
+      ∃ ein ∈ c.edges, ∃ eout ∈ c.edges, ein.dst = n ∧ eout.src = n ∧ ein.key = eout.key ∧ e = joinEdge ein eout
+  nodes : (c.rejoin (c.inEdges n) (c.outEdges n)).nodes = c.nodes
+  nodeDict : (c.rejoin (c.inEdges n) (c.outEdges n)).nodeDict = c.nodeDict
+  nodeId : (c.rejoin (c.inEdges n) (c.outEdges n)).nodeId = c.nodeId
+  regs : (c.rejoin (c.inEdges n) (c.outEdges n)).regs = c.regs
+
+theorem removeFacts {c : Dag} {P : Paths} (h : Inv c P) (n : NodeId) : RemoveFacts c P n := by
+  have hin : ∀ e, e ∈ c.inEdges n ↔ e ∈ c.edges ∧ e.dst = n := by intro e; simp [inEdges]
+  have hout : ∀ e, e ∈ c.outEdges n ↔ e ∈ c.edges ∧ e.src = n := by intro e; simp [outEdges]
+  have hinj_in : ∀ a ∈ c.inEdges n, ∀ b ∈ c.inEdges n, a.key = b.key → a = b := by
+    intro a ha b hb hk
+    have ha' := (hin a).mp ha
+    have hb' := (hin b).mp hb
+    have c1 := (h.edges_iff a).mp ha'.1
+    have c2 := (h.edges_iff b).mp hb'.1
+    rw [ha'.2] at c1; rw [hb'.2, ← hk] at c2
+    have := consec_pred_unique (h.nodup _) c1 c2
+    obtain ⟨s1, d1, k1⟩ := a; obtain ⟨s2, d2, k2⟩ := b
+    simp only at hk this ha' hb'
+    rw [this, hk, ha'.2, hb'.2]
+  have hinj_out : ∀ a ∈ c.outEdges n, ∀ b ∈ c.outEdges n, a.key = b.key → a = b := by
+    intro a ha b hb hk
+    have ha' := (hout a).mp ha
+    have hb' := (hout b).mp hb
+    have c1 := (h.edges_iff a).mp ha'.1
+    have c2 := (h.edges_iff b).mp hb'.1
+    rw [ha'.2] at c1; rw [hb'.2, ← hk] at c2
+    have := consec_succ_unique (h.nodup _) c1 c2
+    obtain ⟨s1, d1, k1⟩ := a; obtain ⟨s2, d2, k2⟩ := b
+    simp only at hk this ha' hb'
+    rw [this, hk, ha'.2, hb'.2]
+  have hk_in : ((c.inEdges n).map (·.key)).Nodup :=
+    nodup_map_of_inj_on (h.edges_nodup.filter _) hinj_in
+  have hk_out : ((c.outEdges n).map (·.key)).Nodup :=
+    nodup_map_of_inj_on (h.edges_nodup.filter _) hinj_out
+  -- the successor of n is not n; the predecessor of n is not n
+  have hdst_ne : ∀ e ∈ c.outEdges n, e.dst ≠ n := by
+    intro e he
+    have he' := (hout e).mp he
+    have := ((h.edges_iff e).mp he'.1).ne (h.nodup _)
+    rw [he'.2] at this; exact fun e' => this e'.symm
+  have hsrc_ne : ∀ e ∈ c.inEdges n, e.src ≠ n := by
+    intro e he
+    have he' := (hin e).mp he
+    have := ((h.edges_iff e).mp he'.1).ne (h.nodup _)
+    rw [he'.2] at this; exact this
+  have hnew : ∀ ein ∈ c.inEdges n, ∀ eout ∈ c.outEdges n, ein.key = eout.key → joinEdge ein eout ∉ c.edges := by
+    intro ein hi eout ho hk hm
+    have hi' := (hin ein).mp hi
+    have c1 := (h.edges_iff ein).mp hi'.1
+    have c3 := (h.edges_iff _).mp hm
+    simp only [joinEdge] at c3
+    rw [← hk] at c3; rw [hi'.2] at c1
+    have := consec_succ_unique (h.nodup _) c1 c3
+    exact hdst_ne eout ho this.symm
+  have hdist : ∀ ein ∈ c.inEdges n, ∀ eout ∈ c.outEdges n, ∀ ein' ∈ c.inEdges n, joinEdge ein eout ≠ ein' := by
+    intro ein _ eout ho ein' hi' heq
+    have := congrArg Edge.dst heq
+    simp only [joinEdge] at this
+    rw [((hin ein').mp hi').2] at this
+    exact hdst_ne eout ho this
+  obtain ⟨a1, a2, a3, a4, a5, a6⟩ := outerJoin_spec (c.outEdges n) hk_out (c.inEdges n) hk_in c h.edgeOK hnew hdist
+  obtain ⟨b1, b2, b3, b4, b5, b6⟩ := removeAll_spec (c.outEdges n) (outerJoin c (c.inEdges n) (c.outEdges n)) a1
+  rw [← rejoin_eq] at b1 b2 b3 b4 b5 b6
+  refine ⟨b1, ?_, b3.trans a3, b4.trans a4, b5.trans a5, b6.trans a6⟩
+  intro e
+  rw [b2, a2]
+  constructor
+  · rintro ⟨⟨he, hni⟩ | ⟨ein, hi, eout, ho, hk, hje⟩, hno⟩
+    · left
+      refine ⟨he, fun hd => hni ((hin e).mpr ⟨he, hd⟩), fun hs => hno ((hout e).mpr ⟨he, hs⟩)⟩
+    · right
+      exact ⟨ein, ((hin ein).mp hi).1, eout, ((hout eout).mp ho).1, ((hin ein).mp hi).2, ((hout eout).mp ho).2, hk, hje⟩
+  · rintro (⟨he, hd, hs⟩ | ⟨ein, hi, eout, ho, hid, hos, hk, hje⟩)
+    · exact ⟨Or.inl ⟨he, fun hm => hd ((hin e).mp hm).2⟩, fun hm => hs ((hout e).mp hm).2⟩
+    · have hi' := (hin ein).mpr ⟨hi, hid⟩
+      have ho' := (hout eout).mpr ⟨ho, hos⟩
+      refine ⟨Or.inr ⟨ein, hi', eout, ho', hk, hje⟩, ?_⟩
+      intro hm
+      have := ((hout e).mp hm).2
+      rw [hje] at this
+      exact hsrc_ne ein hi' this
+
+
+def erasePaths (P : Paths) (n : NodeId) : Paths := fun k => (P k).erase n
+
+theorem removed_edges_iff {c : Dag} {P : Paths} (h : Inv c P) {i : Nat} (e : Edge) :
+    ((e ∈ c.edges ∧ e.dst ≠ .op i ∧ e.src ≠ .op i) ∨
+      ∃ ein ∈ c.edges, ∃ eout ∈ c.edges, ein.dst = .op i ∧ eout.src = .op i ∧ ein.key = eout.key ∧ e = joinEdge ein eout) ↔
+    Consec (erasePaths P (.op i) e.key) e.src e.dst := by
+  unfold erasePaths
+  by_cases hn : NodeId.op i ∈ P e.key
+  · obtain ⟨a, b, ha, hb⟩ := h.op_neighbours hn
+    rw [consec_erase (h.nodup _) ha hb]
+    constructor
+    · rintro (⟨he, hd, hs⟩ | ⟨ein, hi, eout, ho, hid, hos, hk, hje⟩)
+      · exact Or.inl ⟨(h.edges_iff e).mp he, hs, hd⟩
+      · right
+        have hke : e.key = eout.key := by rw [hje]; rfl
+        have c1 := (h.edges_iff ein).mp hi
+        have c2 := (h.edges_iff eout).mp ho
+        rw [hid, hk, ← hke] at c1
+        rw [hos, ← hke] at c2
+        have e1 := consec_pred_unique (h.nodup _) c1 ha
+        have e2 := consec_succ_unique (h.nodup _) c2 hb
+        rw [hje]; exact ⟨e1, e2⟩
+    · rintro (⟨hc, hs, hd⟩ | ⟨hs, hd⟩)
+      · exact Or.inl ⟨(h.edges_iff e).mpr hc, hd, hs⟩
+      · right
+        refine ⟨⟨a, .op i, e.key⟩, (h.edges_iff _).mpr ha, ⟨.op i, b, e.key⟩, (h.edges_iff _).mpr hb, rfl, rfl, rfl, ?_⟩
+        obtain ⟨s, d, k⟩ := e
+        simp only at hs hd
+        simp [joinEdge, hs, hd]
+  · rw [List.erase_of_not_mem hn]
+    constructor
+    · rintro (⟨he, _, _⟩ | ⟨ein, hi, eout, ho, hid, hos, hk, hje⟩)
+      · exact (h.edges_iff e).mp he
+      · exfalso
+        have hke : e.key = eout.key := by rw [hje]; rfl
+        have c2 := (h.edges_iff eout).mp ho
+        rw [hos, ← hke] at c2
+        exact hn c2.mem.1
+    · intro hc
+      left
+      refine ⟨(h.edges_iff e).mpr hc, ?_, ?_⟩
+      · intro hd; exact hn (hd ▸ hc.mem.2)
+      · intro hs; exact hn (hs ▸ hc.mem.1)
+
+theorem removed_inv {c : Dag} {P : Paths} (h : Inv c P) {i : Nat} {op : Op} (hop : (NodeId.op i, op) ∈ c.nodes) :
+    Inv (c.removed (.op i) op) (erasePaths P (.op i)) := by
+  have F := removeFacts h (.op i)
+  have hfilter : (c.rejoin (c.inEdges (.op i)) (c.outEdges (.op i))).edges.filter
+      (fun e => e.src ≠ .op i ∧ e.dst ≠ .op i) = (c.rejoin (c.inEdges (.op i)) (c.outEdges (.op i))).edges := by
+    rw [List.filter_eq_self]
+    intro e he
+    have hc := (removed_edges_iff h e).mp ((F.mem e).mp he)
+    unfold erasePaths at hc
+    have h1 := (h.nodup e.key).mem_erase_iff.mp hc.mem.1
+    have h2 := (h.nodup e.key).mem_erase_iff.mp hc.mem.2
+    simp [h1.1, h2.1]
+  have hedges : (c.removed (.op i) op).edges = (c.rejoin (c.inEdges (.op i)) (c.outEdges (.op i))).edges := by
+    simp only [removed]; exact hfilter
+  have hnodes : (c.removed (.op i) op).nodes = c.nodes.filter (fun p => p.1 ≠ .op i) := by
+    simp only [removed, F.nodes]
+  have hids : (c.removed (.op i) op).nodeIds = c.nodeIds.filter (fun m => m ≠ .op i) := by
+    simp only [nodeIds, hnodes, List.filter_map]; rfl
+  have hregs : (c.removed (.op i) op).regs = c.regs := by
+    have : (c.removed (.op i) op).regs = (c.rejoin (c.inEdges (.op i)) (c.outEdges (.op i))).regs := by
+      funext t; cases t <;> rfl
+    rw [this, F.regs]
+  have hnd' : (c.removed (.op i) op).nodeIds.Nodup := by rw [hids]; exact h.ids_nodup.filter _
+  have hmemn : ∀ m o, (m, o) ∈ (c.removed (.op i) op).nodes ↔ (m, o) ∈ c.nodes ∧ m ≠ .op i := by
+    intro m o; rw [hnodes, List.mem_filter]; simp
+  have hopOf : ∀ m, m ≠ .op i → (c.removed (.op i) op).opOf? m = c.opOf? m := by
+    intro m hm
+    cases hc : c.opOf? m with
+    | none =>
+      apply opOf_eq_none.mpr
+      rw [hids, List.mem_filter]; intro hx; exact (opOf_eq_none.mp hc) hx.1
+    | some o =>
+      apply (opOf_eq_some hnd').mpr
+      rw [hmemn]; exact ⟨(opOf_eq_some h.ids_nodup).mp hc, hm⟩
+  refine
+    { edges_nodup := by rw [hedges]; exact F.rejoin_ok.nodup
+      edges_iff := by intro e; rw [hedges, F.mem, removed_edges_iff h]
+      dead := by
+        intro k hk
+        have : ¬ c.live k := by simpa [live, hregs] using hk
+        simp [erasePaths, h.dead k this]
+      shape := ?_
+      nodup := fun k => (h.nodup k).erase _
+      mem_nodes := ?_
+      edgeDict_ok := ?_
+      ids_nodup := hnd'
+      inp_iff := by
+        intro r; rw [hids, List.mem_filter, live_eq_of_regs hregs, ← h.inp_iff r]; simp
+      out_iff := by
+        intro r; rw [hids, List.mem_filter, live_eq_of_regs hregs, ← h.out_iff r]; simp
+      inp_op := by intro r o hm; exact h.inp_op r o ((hmemn _ _).mp hm).1
+      out_op := by intro r o hm; exact h.out_op r o ((hmemn _ _).mp hm).1
+      op_range := by
+        intro j hj
+        rw [hids, List.mem_filter] at hj
+        have hid : (c.removed (.op i) op).nodeId = c.nodeId := F.nodeId
+        rw [hid]; exact h.op_range j hj.1
+      op_wf := by intro j o hm; exact h.op_wf j o ((hmemn _ _).mp hm).1
+      nodeDict_ok := ?_ }
+  · -- shape
+    intro k hk
+    have hk : c.live k := by simpa [live, hregs] using hk
+    obtain ⟨mid, hP, hmid⟩ := h.shape k hk
+    refine ⟨mid.erase (.op i), ?_, fun m hm => hmid m (List.mem_of_mem_erase hm)⟩
+    unfold erasePaths
+    rw [hP, List.erase_cons_tail (by simp)]
+    by_cases hm : NodeId.op i ∈ mid
+    · rw [List.erase_append_left _ hm]
+    · rw [List.erase_append_right _ hm, List.erase_of_not_mem hm]
+      simp
+  · -- mem_nodes
+    intro k m hm
+    unfold erasePaths at hm
+    have := (h.nodup k).mem_erase_iff.mp hm
+    rw [hids, List.mem_filter]
+    exact ⟨h.mem_nodes k m this.2, by simpa using this.1⟩
+  · -- edgeDict_ok
+    intro t e
+    have hd : (c.removed (.op i) op).edgeDict = (c.rejoin (c.inEdges (.op i)) (c.outEdges (.op i))).edgeDict := rfl
+    rw [hd, hedges]; exact F.rejoin_ok.dict t e
+  · -- nodeDict_ok
+    intro l m
+    have hd : (c.removed (.op i) op).nodeDict = op.indexKeys.foldl (fun d k => dictRemove d k (.op i)) c.nodeDict := by
+      simp only [removed, F.nodeDict]
+    rw [hd, count_dictGet_foldl_remove, h.nodeDict_ok]
+    by_cases hm : m = .op i
+    · subst hm
+      have h1 : c.opOf? (.op i) = some op := (opOf_eq_some h.ids_nodup).mpr hop
+      have h2 : (c.removed (.op i) op).opOf? (.op i) = none := by
+        apply opOf_eq_none.mpr; rw [hids, List.mem_filter]; simp
+      simp [indexCount, h1, h2, indexKeysOf]
+    · simp [indexCount, hopOf m hm, hm]
+
+theorem removed_good {c : Dag} {P : Paths} (g : Good c P) {i : Nat} {op : Op} (hop : (NodeId.op i, op) ∈ c.nodes) :
+    Good (c.removed (.op i) op) (erasePaths P (.op i)) := by
+  have hinv := removed_inv g.inv hop
+  have F := removeFacts g.inv (.op i)
+  have hnodes : (c.removed (.op i) op).nodes = c.nodes.filter (fun p => p.1 ≠ .op i) := by
+    simp only [removed, F.nodes]
+  refine ⟨hinv, ⟨?_, ?_⟩, ?_⟩
+  · intro j o hm k hk
+    rw [hnodes, List.mem_filter] at hm
+    have hne : NodeId.op j ≠ .op i := by simpa using hm.2
+    unfold erasePaths
+    rw [List.mem_erase_of_ne hne]
+    exact g.mem.mem_q j o hm.1 k hk
+  · intro j o hm r hr
+    rw [hnodes, List.mem_filter] at hm
+    unfold erasePaths at hr
+    exact g.mem.mem_c j o hm.1 r (List.mem_of_mem_erase hr)
+  · -- acyclic: every edge of the result is an old path
+    apply AcyclicRel.of_sub_transGen g.acyc
+    rintro a b ⟨e, he, rfl, rfl⟩
+    have hedges : (c.removed (.op i) op).edges ⊆ (c.rejoin (c.inEdges (.op i)) (c.outEdges (.op i))).edges := by
+      simp only [removed]; intro x hx; exact (List.mem_filter.mp hx).1
+    rcases (F.mem e).mp (hedges he) with ⟨he', _, _⟩ | ⟨ein, hi, eout, ho, hid, hos, _, hje⟩
+    · exact TransGen.single ⟨e, he', rfl, rfl⟩
+    · rw [hje]
+      simp only [joinEdge]
+      exact TransGen.tail (TransGen.single ⟨ein, hi, rfl, hid⟩) ⟨eout, ho, hos, rfl⟩
+
+/-- **`remove_op` keeps DagInv** (for an operation node; the register counts and `_node_id` are untouched) -/
+theorem removeOp_good {c : Dag} {P : Paths} (g : Good c P) {i : Nat} (hi : NodeId.op i ∈ c.nodeIds) :
+    (c.removeOp (.op i)).2 = none ∧ Good (c.removeOp (.op i)).1 (erasePaths P (.op i)) ∧
+      (c.removeOp (.op i)).1.regs = c.regs ∧ (c.removeOp (.op i)).1.nodeId = c.nodeId := by
+  obtain ⟨op, hop⟩ := mem_nodeIds.mp hi
+  have h1 : c.opOf? (.op i) = some op := (opOf_eq_some g.inv.ids_nodup).mpr hop
+  rw [removeOp_eq h1]
+  have F := removeFacts g.inv (.op i)
+  refine ⟨rfl, removed_good g hop, ?_, F.nodeId⟩
+  have : (c.removed (.op i) op).regs = (c.rejoin (c.inEdges (.op i)) (c.outEdges (.op i))).regs := by
+    funext t; cases t <;> rfl
+  rw [this, F.regs]
+
 end Dag
 end Graphiq
